@@ -393,7 +393,9 @@ func c12Goroutines(args []string) error {
 		{"ToSTL/devfull/octree", func(i int) { render.ToSTL(sp, "/dev/full", render.NewMarchingCubesOctree(24)) }},
 		{"ToSTL/devfull/uniform", func(i int) { render.ToSTL(sp, "/dev/full", render.NewMarchingCubesUniform(16)) }},
 		{"To3MF/nodir", func(i int) { render.To3MF(sp, filepath.Join(dir, "nodir", "a.3mf"), render.NewMarchingCubesOctree(6)) }},
-		{"ToSVG/nodir", func(i int) { render.ToSVG(ci, filepath.Join(dir, "nodir", "a.svg"), render.NewMarchingSquaresUniform(20)) }},
+		{"ToSVG/nodir", func(i int) {
+			render.ToSVG(ci, filepath.Join(dir, "nodir", "a.svg"), render.NewMarchingSquaresUniform(20))
+		}},
 	}
 	marks := map[int]bool{1: true, 2: true, 4: true, 8: true, 16: true}
 	for _, kd := range kinds {
